@@ -2768,6 +2768,14 @@ class Cond(Generic[X, R], GFI[X, R]):
         **kwargs,
     ) -> tuple[Trace[X, R], Weight, X]:
         (check, *rest_args) = args
+        # Addresses that are not constrained keep the value that was visible in the
+        # old trace, whichever branch is taken now (each branch's own sub-trace may
+        # hold a different, hidden value for them).
+        visible = tr.get_choices()
+        if x is None:
+            x = visible
+        elif isinstance(x, dict) and isinstance(visible, dict):
+            x, _ = self.callee.merge(visible, x)
         new_tr, w, discard = self.callee.update(tr.trs[0], x, *rest_args, **kwargs)
         new_tr_, w_, discard_ = self.callee_.update(tr.trs[1], x, *rest_args, **kwargs)
         # The discard holds the values that were visible in the old trace,
